@@ -498,7 +498,22 @@ op('fromcolumns', ['g'], lambda t: etl.fromcolumns([list(c) for c in _cols(t)], 
 op('fromxml', ['g'], lambda t, ctx: etl.fromxml(_wr(ctx, 'a.xml', lambda p: etl.toxml(t, p)), 'tbody/tr', 'td'),
    ('ctx', 'io'), zero='skip')
 op('fromdb', ['g'], lambda t, ctx: etl.fromdb(_mkdb(ctx, t), 'SELECT * FROM t'), ('ctx', 'io'))
+op('fromcsv(memory)', ['g'], lambda t: etl.fromcsv(_mem(lambda s: etl.tocsv(t, s))), ('io',))
+op('fromtext(memory)', ['g'], lambda t: etl.fromtext(_mem(lambda s: etl.totext(
+    t, s, template='{k}|{v}|{x}\n', prologue='k|v|x\n'))), ('io',), zero=lambda ts: [('k|v|x',)])
+op('frompickle(memory)', ['g'], lambda t: etl.frompickle(_mem(lambda s: etl.topickle(t, s))), ('io',))
+op('fromjson(memory)', ['g'], lambda t: etl.fromjson(_mem(lambda s: etl.tojson(t, s)), header=['k', 'v', 'x']), ('io',))
+# presorted merges stream their inputs (only the laziness check may feed them unsorted counting sources)
+op('mergesort(presorted,stream)', ['g', 'same'], lambda a, b: etl.mergesort(a, b, key='k', presorted=True),
+   ('stream:0', 'passall', 'c02only'), zero='skip')
+op('mergesort(presorted,key=None,stream)', ['g', 'same'], lambda a, b: etl.mergesort(a, b, presorted=True),
+   ('stream:0', 'passall', 'c02only'), zero='skip')
 # ---- tee views (outside C01 by the statement; inside C02/C03/C20) --------------------------
+op('teetext(prologue,epilogue)', ['g'], lambda t, ctx: etl.teetext(
+    t, os.path.join(ctx, 'tee2.txt'), template='{k}|{v}\n', prologue='k|v\n', epilogue='end\n'), ('ctx', 'notee') + S0)
+op('teecsv(memory)', ['g'], lambda t: etl.teecsv(t, etl.MemorySource()), ('notee',) + S0)
+op('teehtml(caption)', ['g'], lambda t, ctx: etl.teehtml(t, os.path.join(ctx, 'tee2.html'), caption='cap',
+                                                         index_header=True), ('ctx', 'notee') + S0)
 op('teecsv', ['g'], lambda t, ctx: etl.teecsv(t, os.path.join(ctx, 'tee.csv')), ('ctx', 'notee') + S0)
 op('teetsv', ['g'], lambda t, ctx: etl.teetsv(t, os.path.join(ctx, 'tee.tsv')), ('ctx', 'notee') + S0)
 op('teepickle', ['g'], lambda t, ctx: etl.teepickle(t, os.path.join(ctx, 'tee.p')), ('ctx', 'notee') + S0)
@@ -569,6 +584,13 @@ def _wr(ctx, name, writer):
     if not os.path.exists(p):
         writer(p)
     return p
+
+
+def _mem(writer):
+    """An in-memory source holding what `writer` wrote (a fresh MemorySource per view)."""
+    src = etl.MemorySource()
+    writer(src)
+    return etl.MemorySource(src.getvalue())
 
 
 def _cols(t):
